@@ -132,34 +132,68 @@ class Prov(ast.NodeVisitor):
                 self.assign(t, val[i] if isinstance(val, tuple) and i < len(val) else "?")
         elif isinstance(target, ast.Subscript):
             base = self.ev(target.value)
+            if base == "F" and val in ("D", "U"):
+                self.flags.append((target.lineno, "a pandas object is stored into the dict that pd.DataFrame(...) later aligns by index label", self.name_of(target)))
             if base in ("D", "U") and val in ("D", "U"):
                 if val == "U" or base == "U":
                     self.flags.append((target.lineno, "column/cell assignment aligns a pandas value on labels", self.name_of(target)))
 
-    def run(self):
-        for node in ast.walk(self.fn):   # flow-insensitive two passes are enough for the probe
-            pass
-        for _ in range(2):
-            self.flags = []
-            for st in ast.walk(self.fn):
-                if isinstance(st, ast.Assign):
-                    v = self.ev(st.value)
-                    for t in st.targets:
-                        self.assign(t, v)
-                elif isinstance(st, ast.AugAssign):
-                    v = self.ev(ast.BinOp(left=st.target, op=st.op, right=st.value, lineno=st.lineno, col_offset=0))
-                    self.assign(st.target, v)
-                elif isinstance(st, ast.For):
-                    it = self.ev(st.iter)
-                    self.assign(st.target, "E" if it in ("E", "D") else "?")
-                elif isinstance(st, ast.Expr):
-                    self.ev(st.value)
-                elif isinstance(st, (ast.If, ast.While)):
-                    self.ev(st.test)
-                elif isinstance(st, ast.Return) and st.value is not None:
-                    self.ev(st.value)
-        return sorted(set(self.flags))
+    # isinstance narrowing: what a name is known to be inside `if isinstance(name, T):`
+    NARROW = {"list": "E", "np.ndarray": "E", "numpy.ndarray": "E", "dict": "E", "tuple": "E"}
 
+    def _narrowing(self, test):
+        if isinstance(test, ast.Call) and self.name_of(test.func) == "isinstance" and len(test.args) == 2 and isinstance(test.args[0], ast.Name):
+            tn = self.name_of(test.args[1])
+            if tn in self.NARROW:
+                return test.args[0].id, self.NARROW[tn]
+        return None
+
+    def visit_block(self, stmts):
+        for st in stmts:
+            if isinstance(st, ast.Assign):
+                v = self.ev(st.value)
+                for t in st.targets:
+                    self.assign(t, v)
+            elif isinstance(st, ast.AugAssign):
+                v = self.ev(ast.BinOp(left=st.target, op=st.op, right=st.value, lineno=st.lineno, col_offset=0))
+                self.assign(st.target, v)
+            elif isinstance(st, ast.For):
+                it = self.ev(st.iter)
+                self.assign(st.target, "E" if it in ("E", "D") else "?")
+                self.visit_block(st.body)
+                self.visit_block(st.orelse)
+            elif isinstance(st, ast.Expr):
+                self.ev(st.value)
+            elif isinstance(st, ast.If):
+                self.ev(st.test)
+                nar = self._narrowing(st.test)
+                if nar:
+                    old = self.env.get(nar[0])
+                    self.env[nar[0]] = nar[1]
+                    self.visit_block(st.body)
+                    self.env[nar[0]] = old
+                else:
+                    self.visit_block(st.body)
+                self.visit_block(st.orelse)
+            elif isinstance(st, ast.While):
+                self.ev(st.test)
+                self.visit_block(st.body)
+            elif isinstance(st, ast.Try):
+                self.visit_block(st.body)
+                for h in st.handlers:
+                    self.visit_block(h.body)
+                self.visit_block(st.orelse)
+                self.visit_block(st.finalbody)
+            elif isinstance(st, ast.With):
+                self.visit_block(st.body)
+            elif isinstance(st, ast.Return) and st.value is not None:
+                self.ev(st.value)
+
+    def run(self):
+        for _ in range(2):          # two passes: values assigned later in the text reach earlier uses inside loops
+            self.flags = []
+            self.visit_block(self.fn.body)
+        return sorted(set(self.flags))
 
 
 TARGETS = [
@@ -168,7 +202,7 @@ TARGETS = [
      {"sensitive_features": "D", "labels": "U", "scores": "E"}),
     ("fairlearn/postprocessing/_threshold_optimizer.py", "ThresholdOptimizer._threshold_optimization_for_simple_constraints",
      {"sensitive_features": "D", "labels": "U", "scores": "E"}),
-    ("fairlearn/postprocessing/_threshold_optimizer.py", "_reformat_data_into_dict", {"key": "E", "data_dict": "E", "additional_data": "U"}),
+    ("fairlearn/postprocessing/_threshold_optimizer.py", "_reformat_data_into_dict", {"key": "E", "data_dict": "F", "additional_data": "U"}),
     ("fairlearn/postprocessing/_interpolated_thresholder.py", "InterpolatedThresholder._pmf_predict", {"X": "U", "sensitive_features": "U"}),
     ("fairlearn/metrics/_metric_frame.py", "MetricFrame.__init__", {"y_true": "U", "y_pred": "U", "sensitive_features": "U", "control_features": "U", "sample_params": "U"}),
     ("fairlearn/metrics/_metric_frame.py", "MetricFrame._construct_annotated_metric_function", {"sample_params": "U", "all_data": "D", "param_value": "U"}),
@@ -186,9 +220,11 @@ TARGETS = [
 ]
 
 
-def report(rep, label="P"):
+def report(rep, label="P", only=None):
     rep.trust("provenance summaries of _reformat_and_group_data / _tradeoff_curve / _interpolate_curve (frames built from .values / lists: default index)")
     for relpath, qualname, params in TARGETS:
+        if only and not any(o in relpath for o in only):
+            continue
         fnname = f"{relpath}::{qualname}"
         name = f"{qualname}.provenance.no_caller_label_reaches_an_aligning_operation"
         try:
@@ -204,6 +240,6 @@ def report(rep, label="P"):
             continue
         rep.add_obligation(name, fnname, "failed", "ast-typestate", 0.0, label, detail=str(flags)[:300])
         for (line, why, expr) in flags:
-            rep.violation(f"C12:{qualname}:label-sensitive:{expr[:40]}", f"{qualname} line {line}: {why} [{expr}]",
+            rep.violation(f"{rep.pid}:{qualname}:label-sensitive:{expr[:40]}", f"{qualname} line {line}: {why} [{expr}]",
                           replay={"obligation": name, "function": fnname, "line": line, "reason": why, "expression": expr,
                                   "analysis": "vf/static/provenance.py"}, obligation=name, no_input=True)
